@@ -162,6 +162,53 @@ func c07Programs(r *plan.Rng) []c07prog {
 			"		out += v",
 			"	})",
 			"}")},
+		{name: "parkAfterIf", inf: true, src: lines(
+			"out := 0",
+			"park := func() {",
+			"	if lim >= 0 {",
+			"		return lim + k",
+			"	}",
+			"	for {",
+			"	}",
+			"}",
+			"out = park()")},
+		{name: "parkAfterLoop", inf: true, src: lines(
+			"out := 0",
+			"park2 := func() {",
+			"	if lim >= 0 {",
+			"		return lim",
+			"	}",
+			"	for i := 0; i < 2; i++ {",
+			"		out += i",
+			"	}",
+			"	for {",
+			"		continue",
+			"	}",
+			"}",
+			"out = park2()")},
+		{name: "parkAfterForIn", inf: true, src: lines(
+			"out := 0",
+			"park3 := func() {",
+			"	if lim >= 0 {",
+			"		return lim",
+			"	}",
+			"	for x in [1, 2] {",
+			"		out += x",
+			"	}",
+			"	for {",
+			"	}",
+			"}",
+			"out = park3()")},
+		{name: "parkTopLevel", inf: true, src: lines(
+			"out := k",
+			"if lim < 0 {",
+			"	if out < 0 {",
+			"		out = 1",
+			"	}",
+			"	for {",
+			"	}",
+			"}",
+			"out = lim")},
 		{name: "whileCondJump", inf: true, src: lines(
 			"out := 0",
 			"go_on := true",
